@@ -155,7 +155,7 @@ def one(ctx, i):
 
 
 def run(ctx):
-    n = 40 if ctx.tier == "quick" else 300
+    n = 40 if ctx.tier == "quick" else 1000
     core.WARM_P = 0.0
     if ctx.replay:
         c = ctx.replay["case"]
